@@ -77,6 +77,10 @@ func (g *gen) Add(name string, typs []types.Type) (string, error) {
 	if !types.AssignableTo(typs[1], sliceType.Elem()) {
 		return "", fmt.Errorf("%s, the second argument, %s, is not is assignable to an element that of the slice type %s", name, typs[1], typs[0])
 	}
+	if basic, ok := typs[1].(*types.Basic); ok && basic.Kind() == types.UntypedNil {
+		// the default value nil has the type of the elements
+		return g.SetFuncName(name, typs[0], sliceType.Elem())
+	}
 	return g.SetFuncName(name, typs[0], typs[1])
 }
 
